@@ -9,7 +9,7 @@ from ..model import AnalysisError, dotted, norm
 from ..report import Report
 from .. import sym
 from .common import own_nodes
-from .symutil import S, all_of, any_lit, arg, has, is_, mentions, sh, unobj
+from .symutil import S, all_of, any_lit, arg, elem_of, has, is_, mentions, sh, unobj
 
 EXPLANATION = (
     "SIB: amplitude, detuning and phase are written over identical index ranges: in _ChannelSchedule.get_samples amp and det are accumulated over the same slot slice from the pulse's amplitude resp. detuning samples; "
@@ -101,10 +101,10 @@ def run(E: Engine, rep: Report, tier: str) -> dict:
             continue
         n_win += 1
         idx = p0[2]
-        slot = ("elem", l0.loops[-2])
+        slot_it = l0.loops[-2]
         atom = p0[0][2] if p0[0][0] == "idx" else None
         m = is_(idx, "slice(max(Q_s.ti, self._slm_mask.end) if (Q_b == 'XY' and Q_t in self._slm_mask.targets) else Q_s.ti, Q_s.tf)")
-        ok = m is not None and m["Q_s"] == slot and m["Q_t"] == atom and mentions(m["Q_b"], "basis")
+        ok = m is not None and elem_of(m["Q_s"], slot_it) and m["Q_t"] == atom and mentions(m["Q_b"], "basis")
         rep.check(ok, "SIB", "to_nested_dict|window-within-slot|times", "per-atom window = [s.ti (or max(s.ti, mask end) for a masked atom in XY) : s.tf] of the slot being rendered", f"to_nested_dict: the per-atom window is {sh(idx, 220)} -- it must start at the slot's own start (raised to the SLM mask end only for masked atoms in XY) and end at the slot's end, else samples of other slots are attributed to the atom", E.where(tnd, l0.node))
         rep.check(ok, "GUARD", "to_nested_dict|mask-shift-only-masked-xy", "per-atom start shifted only for masked targets in XY", "the per-atom SLM shift condition changed", E.where(tnd, l0.node))
     # get_samples
